@@ -29,6 +29,7 @@ type scenOpts struct {
 	errKinds    bool     // failing builders may return errors wrapping context / cache sentinel errors
 	nested      bool     // builders may call Get for a later key of the scenario (acyclic dependencies)
 	restorePrep bool     // the initial backend state may arrive through Restore of another instance's dump
+	extCleanup  bool     // external ops may run a cleanup cycle of the real backend and write same-shard neighbour keys
 }
 
 const (
